@@ -128,7 +128,62 @@ fn new_classify(b: &[u8]) -> String {
             }
         }
     } else { "skip".into() };
-    format!("bl={} fb={} rem={}", bl, fb, rem)
+    // cancel-all on the header alone (no session): what it programs, and whether that needed a 0 -> 1 transition
+    let can = {
+        let mut f2 = Nor::new(BLK, 4 * SLOT);
+        f2.mem[..28].copy_from_slice(&b[..28]);
+        f2.arm();
+        match guarded(|| block_on(m.cancel_all_ext_pending(&mut f2, &mut s))) {
+            Err(_) => "PANIC".to_string(),
+            Ok(Err(_)) => "err".into(),
+            Ok(Ok(())) => {
+                let t: Vec<String> = f2.log.iter().map(|o| match o {
+                    crate::nor::Op::Erase(_) => "erase".to_string(),
+                    crate::nor::Op::Write(a, d) => format!("w{}:{}", a, hex(d)),
+                }).collect();
+                format!("{}{}", if t.is_empty() { "keep".to_string() } else { t.join(",") }, if f2.needs_set > 0 { "!needs-set" } else { "" })
+            }
+        }
+    };
+    format!("bl={} fb={} rem={} can={}", bl, fb, rem, can)
+}
+
+/// the documented classification, written independently from the table in the property / layout.rs comments:
+/// (ext, int, boot) -> lifecycle state; everything else needs erase
+fn documented_class(w: &[u32; 7]) -> &'static str {
+    let legal = (w[0] == 0 || w[0] == 1) && w[1] != 0xFFFF_FFFF && (1..=256).contains(&w[2]) && (1..=16384).contains(&w[3])
+        && [0xFFFF_FFFF, 0xAAAA_AAAA, 0x4444_4444].contains(&w[4]) && [0xFFFF_FFFF, 0x1111_1111].contains(&w[5])
+        && [0xFFFF_FFFF, 0xABCD_1234, 0xCDEF_7890].contains(&w[6]);
+    if !legal {
+        return "unparseable";
+    }
+    match (w[4], w[5], w[6]) {
+        (0xFFFF_FFFF, 0xFFFF_FFFF, 0xFFFF_FFFF) => "AppWriteInProgress",
+        (0xAAAA_AAAA, 0xFFFF_FFFF, 0xFFFF_FFFF) => "AppWriteAborted",
+        (0x4444_4444, 0xFFFF_FFFF, 0xFFFF_FFFF) => "BootloadWriteInProgress",
+        (0x4444_4444, 0x1111_1111, 0xFFFF_FFFF) => "FirstBootPendingAck",
+        (0x4444_4444, 0x1111_1111, 0xABCD_1234) => "ConfirmedImage",
+        (0x4444_4444, 0x1111_1111, 0xCDEF_7890) => "RejectedImage",
+        _ => "InvalidNeedsErase",
+    }
+}
+
+/// what the public queries must show for a header of that class in slot 0 (see `new_classify`)
+fn expected_observation(w: &[u32; 7]) -> String {
+    let c = documented_class(w);
+    let fw = w[0] == 0;
+    let bl = match c { "BootloadWriteInProgress" if fw => "copy0", "FirstBootPendingAck" if fw => "unack0", _ => "idle" };
+    let fb = if c == "ConfirmedImage" { "some" } else { "none" };
+    let rem = if w[1] > 0xFFFF_FFF0 { "skip".to_string() } else {
+        match c {
+            "AppWriteInProgress" => "sess:w16:aaaaaaaa".to_string(),
+            "BootloadWriteInProgress" | "InvalidNeedsErase" => "sess:erase".into(),
+            _ => "sess:keep".into(),
+        }
+    };
+    // cancel-all aborts exactly the headers whose external status reads in progress
+    let can = if c != "unparseable" && w[4] == 0xFFFF_FFFF { "w16:aaaaaaaa" } else { "keep" };
+    format!("bl={} fb={} rem={} can={}", bl, fb, rem, can)
 }
 
 fn words_to_bytes(w: &[u32; 7]) -> Vec<u8> {
@@ -300,8 +355,37 @@ pub fn exec(line: &str, o: &mut Out) -> String {
             }
             a
         }
-        "ts" => orig_total_status(&unhex(t[2])),
-        "cls" => new_classify(&unhex(t[2])),
+        "ts" => {
+            let b = unhex(t[2]);
+            let a = orig_total_status(&b);
+            if b.len() >= 28 {
+                let mut w = [0u32; 7];
+                for i in 0..7 {
+                    w[i] = u32::from_le_bytes([b[4 * i], b[4 * i + 1], b[4 * i + 2], b[4 * i + 3]]);
+                }
+                let want = documented_class(&w);
+                if (want == "unparseable") != (a == "none") || (want != "unparseable" && a != want) {
+                    o.fail("C11", format!("deprecated crate classifies header {} as {}, documented class {}", hex(&b), a, want));
+                }
+            }
+            a
+        }
+        "cls" => {
+            let b = unhex(t[2]);
+            let a = new_classify(&b);
+            let mut w = [0u32; 7];
+            for i in 0..7 {
+                w[i] = u32::from_le_bytes([b[4 * i], b[4 * i + 1], b[4 * i + 2], b[4 * i + 3]]);
+            }
+            let want = expected_observation(&w);
+            if a != want {
+                o.fail("C11", format!("header {} (documented class {}) is treated as [{}], the documented classification gives [{}]", hex(&b), documented_class(&w), a, want));
+            }
+            if a.contains("needs-set") {
+                o.fail("C11", format!("a status transition performed by cancel-all on header {} needs a 0 -> 1 bit change", hex(&b)));
+            }
+            a
+        }
         "!torn" => {
             // every ordered pair of legal codes (old, new): every pattern w with old&new ⊆ w ⊆ old
             // must parse as old, new or not at all
